@@ -20,8 +20,11 @@ ASSUMPTIONS = ['expat 2.5 and Xerces-C SAX2 are correct XML parsers (independent
                'Python codecs define encodability for ISO-8859-1/-2, US-ASCII, KOI8-R identically to ICU',
                'serializer preconditions respected: valid names, no -- in comments, no ?> in PIs, startDocument first']
 
-ENCODINGS = ['UTF-8', 'UTF-8', 'UTF-16', 'ISO-8859-1', 'US-ASCII', 'ISO-8859-2', 'KOI8-R']
-PYCODEC = {'UTF-8': 'utf-8', 'UTF-16': 'utf-16', 'ISO-8859-1': 'latin-1', 'US-ASCII': 'ascii', 'ISO-8859-2': 'iso8859-2', 'KOI8-R': 'koi8-r'}
+# X-NO-SUCH-ENCODING: an encoding the transcoding service does not know.  The serializers fall back to UTF-8 (documented in
+# XalanXMLSerializerFactory::setEncoding); what is written must then SAY UTF-8, since a parser believes the declaration
+ENCODINGS = ['UTF-8', 'UTF-8', 'UTF-16', 'ISO-8859-1', 'US-ASCII', 'ISO-8859-2', 'KOI8-R', 'X-NO-SUCH-ENCODING']
+PYCODEC = {'UTF-8': 'utf-8', 'UTF-16': 'utf-16', 'ISO-8859-1': 'latin-1', 'US-ASCII': 'ascii', 'ISO-8859-2': 'iso8859-2', 'KOI8-R': 'koi8-r',
+           'X-NO-SUCH-ENCODING': 'utf-8'}
 
 # generator exclusion flags for confirmed open findings (DESIGN 2.6); filled from known_findings.jsonl
 FLAGS = set()
@@ -37,7 +40,7 @@ NONASCII = ('bmp', 'C1', 'astral', 'NEL-LS')
 # replayed without exclusions, so the KNOWN-FINDING line is printed for as long as the defect exists.
 EXCLUSIONS = [
     ('F-C04-legacy-narrow', 'legacy',
-     lambda cl, why, enc, ver: enc not in ('UTF-8', 'UTF-16') and _has(cl, ('name', 'pi', 'comment', 'cdata'), NONASCII)),
+     lambda cl, why, enc, ver: enc not in ('UTF-8', 'UTF-16', 'X-NO-SUCH-ENCODING') and _has(cl, ('name', 'pi', 'comment', 'cdata'), NONASCII)),
     # a surrogate pair split by the serializer's / stream's buffer flush cannot be transcoded (was a runaway allocation, now an error)
     ('F-C04-legacy-astral-split', 'legacy', lambda cl, why, enc, ver: _has(cl, ALLW, ('astral',))),
     ('F-C04-legacy-controls', 'legacy',
@@ -360,5 +363,5 @@ def signature(case, detail):
         parts.append('+'.join(detail.get('classes', [])))
     parts.append(detail.get('ver', '?'))
     enc = detail.get('enc', '?')
-    parts.append('unicode' if enc in ('UTF-8', 'UTF-16') else 'narrow')
+    parts.append('unicode' if enc in ('UTF-8', 'UTF-16', 'X-NO-SUCH-ENCODING') else 'narrow')
     return '|'.join(parts)
